@@ -1,10 +1,154 @@
-/- driver for C06 : to be filled in (stub keeps Main.lean compiling) -/
+/- driver for C06: the solver model S restarted from an EXPLICIT snapshot (the state the harness reads off a
+   restored real solver) and the aliasing model of the shared counter / monitor cells.
+
+   C06 de-resume  <setup> (pop ((..)..)) (popE (..)) (best (..)) (bestE f) (nlog n) (nstep n) (trials (((..)..)..)) (two b)
+   C06 nm-resume  <setup> (sim ((..)..)) (fsim (..)) (nlog n) (nstep n) (steps k) (radius f) (inplace b)
+   C06 ctl-resume (state gens evals nstep maxiter maxfun exit live) (scale i e) (powell b) (ops (..))
+   C06 alias      (ops ((fresh) (call i n) (decorate i) (pickle i) (deepcopyU i) (deepcopyL i) ..))
+-/
 import MysticVerif.Basic.Proto
+import MysticVerif.Model.Checkpoint
+import MysticVerif.Drv.SolverDrv
 
 namespace MysticVerif.DrvC06
-open MysticVerif
+open MysticVerif MysticVerif.Solver MysticVerif.Checkpoint MysticVerif.SolverDrv
+
+/-- a monitor of which only the length is known to the harness side: `n` placeholder records -/
+def blankLog (n : Nat) : List (V × Float) := List.replicate n ([], 0.0)
+
+def floatss? (v : Val) : Option (List V) := v.asList?.bind (·.mapM Val.asFloats?)
+
+def handleDE (args : List Val) : String := Id.run do
+  let some su := parseSetup args | return "bad-op"
+  let some pop := (kw? args "pop").bind floatss? | return "bad-op"
+  let some popE := (kw? args "popE").bind Val.asFloats? | return "bad-op"
+  let some best := (kw? args "best").bind Val.asFloats? | return "bad-op"
+  let some bestE := (kw? args "bestE").bind Val.asFloat? | return "bad-op"
+  let some nlog := (kw? args "nlog").bind Val.asNat? | return "bad-op"
+  let some nstep := (kw? args "nstep").bind Val.asNat? | return "bad-op"
+  let some trialss := (kw? args "trials").bind Val.asList? |>.bind (·.mapM floatss?) | return "bad-op"
+  let two := ((kw? args "two").bind Val.asBool?).getD false
+  let o := su.obj
+  -- the snapshot of the restored solver, then `restore` and the remaining generations
+  let snap : DESnap V Float :=
+    { population := pop, popEnergy := popE, bestSolution := best, bestEnergy := bestE,
+      evalmon := blankLog nlog, stepmon := blankLog nstep }
+  let mut s : DE V Float := snap.restore
+  let mut outs : Array String := #[]
+  for ts in trialss do
+    s := DE.run two o [ts] s
+    outs := outs.push (showDE s)
+  return s!"ok steps=({" ".intercalate outs.toList}) hist={pFs ((s.stepLog.drop nstep).map Prod.snd)}"
+
+def handleNM (args : List Val) : String := Id.run do
+  let some su := parseSetup args | return "bad-op"
+  let some sim := (kw? args "sim").bind floatss? | return "bad-op"
+  let some fsim := (kw? args "fsim").bind Val.asFloats? | return "bad-op"
+  let some nlog := (kw? args "nlog").bind Val.asNat? | return "bad-op"
+  let some nstep := (kw? args "nstep").bind Val.asNat? | return "bad-op"
+  let some steps := (kw? args "steps").bind Val.asNat? | return "bad-op"
+  let some radius := (kw? args "radius").bind Val.asFloat? | return "bad-op"
+  let mut_ := ((kw? args "inplace").bind Val.asBool?).getD false
+  let o := su.obj
+  let st : V → V := if mut_ then o.K else id
+  let n := Float.ofNat (sim.headD []).length
+  let c : Coef Float := { one := 1.0, rho := 1.0, chi := 2.0, psi := 0.5, sigma := 0.5, n := n }
+  let clip0 : V → V := match su.box with | some b => b.clip0 | none => id
+  let snap : NMSnap Float Float :=
+    { population := sim, popEnergy := fsim, evalmon := blankLog nlog, stepmon := blankLog nstep }
+  let mut s : NM Float Float := snap.restore
+  let mut outs : Array String := #[]
+  for k in [0:steps] do
+    if nstep + k = 1 then
+      -- the restart file was written after generation 0: the next iteration builds the simplex
+      s := NM.gen1 o clip0 (mkVal su.box radius) s
+      outs := outs.push (showNM s "build")
+    else
+      let r := NM.update o c st s
+      s := r.1
+      outs := outs.push (showNM s (branchName r.2))
+  return s!"ok steps=({" ".intercalate outs.toList}) hist={pFs ((s.stepLog.drop nstep).map Prod.snd)}"
+
+def parseLim : Val → Option Lim
+  | .sym "none" => some .none
+  | .sym "star" => some .star
+  | .int i => if 0 ≤ i then some (.val i.toNat) else none
+  | _ => none
+
+def parseCtlOp : Val → Option CtlOp
+  | .list [.sym "step", tpre, tpost, .int dE, .int dG, .int dS] => do
+    pure (.step (← tpre.asBool?) (← tpost.asBool?) dE.toNat dG.toNat dS.toNat)
+  | .list [.sym "limits", g, e, nw] => do pure (.limits (← optNat g) (← optNat e) (← nw.asBool?))
+  | .list [.sym "exit", b] => do pure (.exit (← b.asBool?))
+  | .list [.sym "finalize"] => some .finalize
+  | _ => none
+
+def handleCtl (args : List Val) : String := Id.run do
+  let some (.list [.int g, .int e, .int n, mi, mf, ex, lv]) := kw? args "state" | return "bad-op"
+  let some (.list [.int si, .int se]) := kw? args "scale" | return "bad-op"
+  let some mi' := parseLim mi | return "bad-op"
+  let some mf' := parseLim mf | return "bad-op"
+  let some ex' := ex.asBool? | return "bad-op"
+  let some lv' := lv.asBool? | return "bad-op"
+  let some ops := (kw? args "ops").bind Val.asList? |>.bind (·.mapM parseCtlOp) | return "bad-op"
+  let pw := ((kw? args "powell").bind Val.asBool?).getD false
+  let snap : CtlSnap :=
+    { generations := g.toNat, evaluations := e.toNat, nStepmon := n.toNat, maxiter := mi', maxfun := mf',
+      earlyExit := ex', live := lv', scaleIter := si.toNat, scaleEval := se.toNat, powell := pw }
+  let mut c : Ctl := snap.restore
+  let mut outs : Array String := #[]
+  for op in ops do
+    let r := outOp c op
+    c := applyOp c op
+    outs := outs.push s!"({showMsg r.1} {pB r.2} g{c.gens} e{c.evals} n{c.nstep} {showLim c.maxiter} {showLim c.maxfun} {pB c.live})"
+  return s!"ok ops=({" ".intercalate outs.toList})"
+
+/-! ### aliasing model -/
+
+def showObj (h : Heap) (l : Links) : String :=
+  s!"({evaluations h l} {(monitor h l).length} {pB (decide l.Linked)})"
+
+def handleAlias (args : List Val) : String := Id.run do
+  let some ops := (kw? args "ops").bind Val.asList? | return "bad-op"
+  let mut h : Heap := { ctr := [], mon := [] }
+  let mut objs : Array Links := #[]
+  let mut tag : Nat := 0
+  let mut outs : Array String := #[]
+  for op in ops do
+    match op with
+    | .list [.sym "fresh"] =>
+      let r := fresh h
+      h := r.1; objs := objs.push r.2
+    | .list [.sym "call", .int i, .int n] =>
+      let some l := objs[i.toNat]? | return "err index"
+      let tags := (List.range n.toNat).map (· + tag)
+      tag := tag + n.toNat
+      h := calls h l tags
+    | .list [.sym "decorate", .int i] =>
+      let some l := objs[i.toNat]? | return "err index"
+      let r := decorate h l
+      h := r.1; objs := objs.set! i.toNat r.2
+    | .list [.sym "pickle", .int i] =>
+      let some l := objs[i.toNat]? | return "err index"
+      let r := pickleCopy h l
+      h := r.1; objs := objs.push r.2
+    | .list [.sym "deepcopyL", .int i] =>        -- a deep copy that behaves like one pickle (a repaired __deepcopy__)
+      let some l := objs[i.toNat]? | return "err index"
+      let r := pickleCopy h l
+      h := r.1; objs := objs.push r.2
+    | .list [.sym "deepcopyU", .int i] =>        -- __deepcopy__ as implemented
+      let some l := objs[i.toNat]? | return "err index"
+      let r := deepcopyImpl h l
+      h := r.1; objs := objs.push r.2
+    | _ => return "bad-op"
+    outs := outs.push ("(" ++ " ".intercalate (objs.toList.map (showObj h)) ++ ")")
+  return s!"ok states=({" ".intercalate outs.toList})"
 
 def handle : Handler
+  | .sym "de-resume" :: args => handleDE args
+  | .sym "nm-resume" :: args => handleNM args
+  | .sym "ctl-resume" :: args => handleCtl args
+  | .sym "alias" :: args => handleAlias args
   | _ => "bad-op"
 
 end MysticVerif.DrvC06
